@@ -442,9 +442,55 @@ def m_reversed(I, args, kw):
     return PList(list(reversed(list(I.iterate(args[0])))))
 
 
+class PIter:
+    """iter(x): a ONE-PASS iterator over the elements x has now -- `in`, next() and loops consume it (an earlier version
+    returned a fresh list, so `hop in iterator` did not consume: found by a seeded change, section 7 of DESIGN.md)"""
+
+    def __init__(self, items):
+        self.items = list(items)
+        self.pos = 0
+
+    def __pyvc_iter__(self, I):
+        while self.pos < len(self.items):
+            x = self.items[self.pos]
+            self.pos += 1
+            I.ctx.mutations += 1
+            yield x
+
+    def __pyvc_contains__(self, I, x):
+        # python: compares element by element and stops AFTER the first equal one; not found = exhausted
+        while self.pos < len(self.items):
+            y = self.items[self.pos]
+            self.pos += 1
+            I.ctx.mutations += 1
+            if I.ctx.branch(I.truthy(identity_or_eq(I, x, y))):
+                return True
+        return False
+
+
 @model(builtins.iter)
 def m_iter(I, args, kw):
-    return PList(list(I.iterate(args[0])))
+    if len(args) != 1 or kw:
+        raise Unsupported('iter(callable, sentinel)')
+    if isinstance(args[0], PIter):
+        return args[0]
+    if I.ctx.guards:
+        raise _interp_mod().CannotConvert()
+    return PIter(list(I.iterate(args[0])))
+
+
+@model(builtins.next)
+def m_next(I, args, kw):
+    it = args[0]
+    if not isinstance(it, PIter):
+        raise Unsupported('next() on something that is not an iter() iterator')
+    if I.ctx.guards:
+        raise _interp_mod().CannotConvert()
+    for x in it.__pyvc_iter__(I):
+        return x
+    if len(args) > 1:
+        return args[1]
+    I.raise_(StopIteration)
 
 
 @model(builtins.any)
